@@ -111,12 +111,16 @@ def run(ctx):
     ctx.run_rule("R1-layout", r1_layouts, F, table, names, cstructs, A)
     ctx.run_rule("R2-const", r2_consts, F, table, names, A)
     # discharge
-    workdir = os.path.join(VERIF, ".cache", "c13")
+    import tempfile
+    os.makedirs(os.path.join(VERIF, ".cache"), exist_ok=True)
+    workdir = tempfile.mkdtemp(prefix="c13-", dir=os.path.join(VERIF, ".cache"))     # private: checks may run concurrently
     try:
         cc, cmd, failed, stray = A.run(ctx, workdir)
     except core.Anchor as e:
         ctx.violation("R1-layout", "cc", str(e))
         cc, cmd, failed, stray = "", "", {}, []
+    finally:
+        shutil.rmtree(workdir, ignore_errors=True)
     n_ok = 0
     for ln, (key, expr, what) in sorted(A.keys.items()):
         rule = key.split("/", 1)[0]
@@ -134,6 +138,18 @@ def run(ctx):
     ctx.run_rule("R3-opcode-map", r3_opcode_map, F)
     ctx.run_rule("R4-conv", r4_conversions, F, table)
     ctx.run_rule("R5-repr", r5_repr, F, table)
+    # variable-size records and version-dependent reply sizes: the wire layout that is computed, not declared
+    from rules import c03, c12
+    vf.NOUPD[0] = True
+    vf.NOCAST[0] = True
+    try:
+        ctx.run_rule("R4-dirent", c03.r4_dirent, F, json.load(open(c03.TABLE)))      # fuse_dirent(plus) record: header, name, 8-byte padding
+    finally:
+        vf.NOCAST[0] = False
+    try:
+        ctx.run_rule("R3-layout", c12.r3_layout, F, json.load(open(c12.TABLE)))     # fuse_init_out size per client minor version
+    finally:
+        vf.NOUPD[0] = False
     total = len(ctx.instances)
     bad = len([1 for i in ctx.instances if not i[2]])
     ctx.extra.update({
@@ -167,12 +183,14 @@ def wire_structs(F):
     return out
 
 
-def r1_layouts(ctx, F, table, names, cstructs, A):
+def r1_layouts(ctx, F, table, names, cstructs, A, select=None):
     tstructs = table["structs"]
     fields_map = table.get("fields", {})
     done = set()
     for s in wire_structs(F):
         name = s["key"].rsplit("::", 1)[-1]
+        if select is not None and not select(name):
+            continue
         ent = tstructs.get(name, {})
         if "none" in ent:
             ctx.ok("R1-layout", name + ".no-counterpart", ent["none"], nontrivial=False)
@@ -238,8 +256,9 @@ def r1_layouts(ctx, F, table, names, cstructs, A):
                       loc="%s:%s" % (s["file"], s["line"]))
         done.add(name)
     ctx.extra["structs_checked"] = len(done)
-    if len(done) < 55:
-        ctx.violation("R1-layout", "struct-floor", "only %d wire structs found (floor 55)" % len(done))
+    floor = 55 if select is None else 25
+    if len(done) < floor:
+        ctx.violation("R1-layout", "struct-floor", "only %d wire structs found (floor %d)" % (len(done), floor))
 
 
 BITFLAG_PREFIX = {
@@ -440,6 +459,29 @@ def r4_conversions(ctx, F, table, floor=True):
 
 def strip(e):
     return vf.strip_casts(e)
+
+
+def layout_subset(ctx, F, select):
+    """R1-layout restricted to the wire structs `select` accepts (shared with C03: reply structs)."""
+    import tempfile
+    table = json.load(open(TABLE))
+    names, cstructs = header_names()
+    A = Asserts()
+    r1_layouts(ctx, F, table, names, cstructs, A, select=select)
+    os.makedirs(os.path.join(VERIF, ".cache"), exist_ok=True)
+    workdir = tempfile.mkdtemp(prefix="c13-", dir=os.path.join(VERIF, ".cache"))
+    try:
+        cc, cmd, failed, stray = A.run(ctx, workdir)
+    finally:
+        shutil.rmtree(workdir, ignore_errors=True)
+    for ln, (key, expr, what) in sorted(A.keys.items()):
+        rule, k = key.split("/", 1)
+        if ln in failed:
+            ctx.violation(rule, k, "%s: kernel ABI disagrees: %s  (%s)" % (what, expr, failed[ln]), loc=what_loc(F, k), assertion=expr)
+        else:
+            ctx.ok(rule, k, expr)
+    for s_ in stray:
+        ctx.violation("R1-layout", "cc-unattributed", "C front end error not tied to an obligation: %s" % s_)
 
 
 def flatten_struct(e):
